@@ -38,6 +38,7 @@ let hop = function
 let rec stmt = function
   | L (A "use" :: ids) -> SUse (List.map nat ids)
   | L [A "group"; p; L m; L body]
+  | L [A "group"; p; L m; L body; A "res"] (* Router.Resource(base, ctl, m...): Group(base+name){ AddNamed(name_action, "/", action).Use(uses) } *)
   | L [A "group"; p; L m; L body; A "ctl"] (* Router.Controller(p, c, m...) with c.AddRoutes = body: a Group by definition *)
     -> SGroup (str p, List.map nat m, List.map stmt body)
   | L [A "route"; L ms; p; main; L var; L later; name]
